@@ -42,6 +42,8 @@ type protoCase struct {
 	// C07 Scan: the records the input was written from (what Scan has to enumerate)
 	Recs  []pRec    `json:"recs,omitempty"`
 	Alloc *allocVec `json:"alloc,omitempty"`
+	// C07 same value: a second input (hex) that must decode to exactly what Bytes decodes to
+	Bytes2 string `json:"bytes2,omitempty"`
 }
 
 func parseProtoVec(c *Ctx, prop string, raw stdjson.RawMessage) (protoVec, bool) {
@@ -595,7 +597,61 @@ type intLattice struct {
 
 func c03Integers(c *Ctx) { protoIntegers(c, "C03") }
 
+// protoByteArrayPositions: a byte-array field is left out when all its bytes are zero, which the code decides a word at
+// a time with a tail of 1..7 bytes: arrays of every length around the word sizes whose only non-zero byte sits at each
+// position in turn are written (standard encoding: tag, length, the bytes) and come back
+func protoByteArrayPositions(c *Ctx, prop string) {
+	for _, n := range []int{1, 2, 3, 4, 5, 6, 7, 8, 9, 10, 11, 12, 13, 14, 15, 16, 17, 23, 24, 25, 31, 32, 33, 39, 63, 64, 65} {
+		t := reflect.StructOf([]reflect.StructField{
+			{Name: "A", Type: reflect.TypeOf(int32(0))},
+			{Name: "F", Type: reflect.ArrayOf(n, reflect.TypeOf(byte(0)))},
+			{Name: "Z", Type: reflect.TypeOf("")},
+		})
+		for i := 0; i < n; i++ {
+			for _, bv := range []byte{1, 0x80} {
+				for _, around := range []bool{false, true} {
+					k := protoCase{What: fmt.Sprintf("byte array positions n=%d i=%d", n, i)}
+					v := reflect.New(t).Elem()
+					v.Field(1).Index(i).SetUint(uint64(bv))
+					var want []byte
+					if around {
+						v.Field(0).SetInt(5)
+						v.Field(2).SetString("z")
+						want = []byte{1 << 3, 5}
+					}
+					want = append(append(want, 2<<3|2), uvarintBytes(uint64(n))...)
+					arr := make([]byte, n)
+					arr[i] = bv
+					want = append(want, arr...)
+					if around {
+						want = append(want, 3<<3|2, 1, 'z')
+					}
+					var b []byte
+					var err error
+					size := -1
+					c.Case()
+					c.Eval(1)
+					api := "(byte array whose only non-zero byte is at each position)"
+					if p := protect(func() { b, err = proto.Marshal(v.Interface()); size = proto.Size(v.Interface()) }); p != "" || err != nil {
+						c.Diverge(prop, "proto.Marshal"+api, "nil error", fmt.Sprintf("%v %s", err, p), "", k)
+						continue
+					}
+					if !bytes.Equal(b, want) || size != len(want) {
+						c.Diverge(prop, "proto.Marshal"+api, fmt.Sprintf("%x (Size %d)", want, len(want)), fmt.Sprintf("%x (Size %d)", b, size), "", k)
+						continue
+					}
+					out := reflect.New(t)
+					if p := protect(func() { err = proto.Unmarshal(b, out.Interface()) }); p != "" || err != nil || !reflect.DeepEqual(out.Elem().Interface(), v.Interface()) {
+						c.Diverge(prop, "proto.Unmarshal(Marshal(v))"+api, fmt.Sprintf("%v", v.Interface()), fmt.Sprintf("%v err=%v %s", out.Elem().Interface(), err, p), "", k)
+					}
+				}
+			}
+		}
+	}
+}
+
 func protoIntegers(c *Ctx, prop string) {
+	protoByteArrayPositions(c, prop)
 	var lat []uint64
 	for n := 1; n <= 10; n++ {
 		var v uint64
@@ -804,7 +860,7 @@ func c03Replay(c *Ctx, raw stdjson.RawMessage) {
 	}
 	var k protoCase
 	if stdjson.Unmarshal(raw, &k) == nil {
-		if strings.HasPrefix(k.What, "composite map") || strings.HasPrefix(k.What, "generated-code types") || strings.HasPrefix(k.What, "recursive types") || strings.HasPrefix(k.What, "integer lattice") {
+		if strings.HasPrefix(k.What, "composite map") || strings.HasPrefix(k.What, "generated-code types") || strings.HasPrefix(k.What, "recursive types") || strings.HasPrefix(k.What, "integer lattice") || strings.HasPrefix(k.What, "byte array positions") {
 			c03CompositeMaps(c)
 			return
 		}
@@ -1055,7 +1111,7 @@ func c12Replay(c *Ctx, raw stdjson.RawMessage) {
 	if stdjson.Unmarshal(raw, &k) != nil {
 		return
 	}
-	if strings.HasPrefix(k.What, "integer lattice") {
+	if strings.HasPrefix(k.What, "integer lattice") || strings.HasPrefix(k.What, "byte array positions") {
 		protoIntegers(c, "C12")
 		return
 	}
@@ -1235,6 +1291,80 @@ func allocDuring(f func()) uint64 {
 	f()
 	runtime.ReadMemStats(&b)
 	return b.TotalAlloc - a.TotalAlloc
+}
+
+// exactEq: the same Go value, pointer for pointer (nil-ness included), floats bit for bit
+func exactEq(a, b reflect.Value) bool {
+	if a.IsValid() != b.IsValid() {
+		return false
+	}
+	if !a.IsValid() {
+		return true
+	}
+	if a.Type() != b.Type() {
+		return false
+	}
+	switch a.Kind() {
+	case reflect.Ptr, reflect.Interface:
+		if a.IsNil() != b.IsNil() {
+			return false
+		}
+		return a.IsNil() || exactEq(a.Elem(), b.Elem())
+	case reflect.Struct:
+		for i := 0; i < a.NumField(); i++ {
+			if !exactEq(a.Field(i), b.Field(i)) {
+				return false
+			}
+		}
+		return true
+	case reflect.Slice, reflect.Array:
+		if a.Len() != b.Len() {
+			return false
+		}
+		for i := 0; i < a.Len(); i++ {
+			if !exactEq(a.Index(i), b.Index(i)) {
+				return false
+			}
+		}
+		return true
+	case reflect.Map:
+		if a.Len() != b.Len() {
+			return false
+		}
+		for _, key := range a.MapKeys() {
+			bv := b.MapIndex(key)
+			if !bv.IsValid() || !exactEq(a.MapIndex(key), bv) {
+				return false
+			}
+		}
+		return true
+	case reflect.Float32, reflect.Float64:
+		return math.Float64bits(a.Float()) == math.Float64bits(b.Float())
+	}
+	return reflect.DeepEqual(a.Interface(), b.Interface())
+}
+
+// c07SameValue: Bytes2 is Bytes with well-formed fields inserted that the target does not declare: it decodes to
+// exactly the value Bytes decodes to
+func c07SameValue(c *Ctx, k protoCase) {
+	b1, _ := hex.DecodeString(k.Bytes)
+	b2, _ := hex.DecodeString(k.Bytes2)
+	t := structTypeOf(k.Shape, "")
+	o1, o2 := reflect.New(t), reflect.New(t)
+	var e1, e2 error
+	c.Case()
+	c.Eval(1)
+	if p := protect(func() { e1 = proto.Unmarshal(b1, o1.Interface()); e2 = proto.Unmarshal(b2, o2.Interface()) }); p != "" {
+		c.Diverge("C07", "proto.Unmarshal("+k.What+")", "error or value, no panic", p, "", k)
+		return
+	}
+	if e1 != nil {
+		return // the value itself is C03's and C12's business
+	}
+	if e2 != nil || !exactEq(o1.Elem(), o2.Elem()) {
+		c.Diverge("C07", "proto.Unmarshal("+k.What+" against the message without them)", fmt.Sprintf("exactly the value of the message without them: %+v", showGo(o1.Elem())),
+			fmt.Sprintf("%+v err=%v", showGo(o2.Elem()), e2), "", k)
+	}
 }
 
 func c07Total(c *Ctx, k protoCase) {
@@ -1471,6 +1601,27 @@ func c07Vector(c *Ctx, raw stdjson.RawMessage) {
 			c07Scan(c, mk("unknown-fields(padded tags, lengths, varints)", up, ""), full.Re["unknown"])
 		}
 	}
+	// unknown fields at every boundary of every nested message and map entry too: the same value, exactly (a pointer
+	// that is set stays set, one that is nil stays nil)
+	if recs, ok := full.Re["deep"]; ok {
+		dp := l.encodeRecs(recs, wireOpts{})
+		if tr, err := refDecode(v.Shape, dp); err != nil || treeString(tr) != want {
+			c.SpecError("C07", "reference does not ignore the unknown fields inside nested messages", mk("deep", dp, want))
+		} else {
+			c.Case()
+			md := mk("unknown-fields-at-every-level", dp, want)
+			if bigNumber(v.Shape) || repTagged {
+				md.Want = ""
+			}
+			c07Total(c, md)
+			ms := mk("unknown-fields-at-every-level", canon, "")
+			ms.Bytes2 = hex.EncodeToString(dp)
+			c07SameValue(c, ms)
+			mu2 := mk("unknown-fields", canon, "")
+			mu2.Bytes2 = hex.EncodeToString(unk)
+			c07SameValue(c, mu2)
+		}
+	}
 	// unknown fields whose numbers share their low 16 bits with the declared ones
 	if recs, ok := full.Re["aliased"]; ok {
 		al := l.encodeRecs(recs, wireOpts{})
@@ -1571,6 +1722,10 @@ func c07Replay(c *Ctx, raw stdjson.RawMessage) {
 			c07TopLevel(c, k, elemType(k.Shape[0].K))
 			return
 		}
+		if k.Bytes2 != "" {
+			c07SameValue(c, k)
+			return
+		}
 		if len(k.Recs) > 0 {
 			c07Scan(c, k, k.Recs)
 			return
@@ -1595,4 +1750,13 @@ func init() {
 	register("C12", &Driver{Vector: c12Vector, Replay: c12Replay, Extra: func(c *Ctx) { protoIntegers(c, "C12") }})
 	register("C16", &Driver{Vector: c16Vector, Replay: c16Replay})
 	register("C07", &Driver{Vector: c07Vector, Replay: c07Replay, Extra: c07ByteArrays})
+}
+
+// showGo: a value with its pointers followed (what %+v shows as addresses)
+func showGo(v reflect.Value) string {
+	b, err := stdjson.Marshal(v.Interface())
+	if err != nil {
+		return fmt.Sprintf("%+v", v.Interface())
+	}
+	return string(b)
 }
